@@ -48,7 +48,7 @@ type checker struct {
 	class map[string]int // violations per (mode, what)
 
 	execs, calls, blocks, harnessErrs vk.Counter
-	states               *vk.Set
+	states                            *vk.Set
 }
 
 const perClassCap = 3
@@ -344,12 +344,12 @@ func TestCheck(t *testing.T) {
 		os.Exit(3)
 	}
 	cov := map[string]any{
-		"states":                        c.states.Len(),
-		"transitions":                   int(c.calls.Get()),
-		"traces_validated_against_impl": int(c.execs.Get()) + bstat.execs,
-		"layerA_programs":               len(all),
+		"states":                         c.states.Len(),
+		"transitions":                    int(c.calls.Get()),
+		"traces_validated_against_impl":  int(c.execs.Get()) + bstat.execs,
+		"layerA_programs":                len(all),
 		"layerA_programs_in_real_blocks": len(blk),
-		"layerA_spaces":                 spaceInfo,
+		"layerA_spaces":                  spaceInfo,
 		"layerA_test_outcomes": map[string]int64{"halt_callee_changes_undone": undone.Get(), "halt_callee_failed_nothing_to_undo": restoredNoop.Get(),
 			"halt_no_failure": plain.Get(), "fault": faulted.Get()},
 		"layerA_block_outcomes": map[string]int64{"halt_callee_changes_undone": bUndone.Get(), "fault": bFault.Get(), "halt_other": bHalt.Get()},
